@@ -347,7 +347,8 @@ def compare_and_judge(ctx, hexe, oexe, hists, guard, owns, do_diff=True):
     owns(signature) -> bool: which judge signatures belong to the property being checked."""
     stats = {"histories": 0, "commands": 0, "diffed_commands": 0, "mismatching_commands": 0, "mismatches_attributed_to_implementation": 0,
              "judge_state_checks": 0, "judge_clause_checks": 0, "judge_rel_checks": 0, "judge_query_checks": 0, "cells_checked": 0,
-             "model_faults": 0, "judge_relation_network_checks": 0, "distinct_states": 0, "agreeing_commands": 0, "deep_searches": 0, "deep_search_hits": 0}
+             "model_faults": 0, "judge_relation_network_checks": 0, "distinct_states": 0, "agreeing_commands": 0, "deep_searches": 0, "deep_search_hits": 0,
+             "guard_evaluations": 0, "guard_failures": 0}
     seen_sig = set()
     states = set()
     gline = guard if isinstance(guard, str) else "guard %d" % (1 if guard else 0)
@@ -357,6 +358,9 @@ def compare_and_judge(ctx, hexe, oexe, hists, guard, owns, do_diff=True):
         if do_diff and not profile.endswith("realsat"):
             spans.append((len(script), len(cmds)))
             script += cmds
+            # the oracle evaluates the extracted guard idl_gp (smt/DlGuard.v) before every theory propagation; the counters
+            # of this history are read (and reset) by the extra command
+            script.append("guardstats")
         else:
             spans.append(None)
     model_out = []
@@ -409,6 +413,20 @@ def compare_and_judge(ctx, hexe, oexe, hists, guard, owns, do_diff=True):
             continue
         b, ln = span
         mo = model_out[b:b + ln]
+        gs = model_out[b + ln][0].split() if b + ln < len(model_out) else []
+        if len(gs) == 3 and gs[0] == "guardstats":
+            stats["guard_evaluations"] += int(gs[1])
+            if int(gs[2]) > 0 and owns("dl:guard-failed", None):
+                stats["guard_failures"] += int(gs[2])
+            if int(gs[2]) > 0 and owns("dl:guard-failed", None) and "dl:guard-failed" not in seen_sig:
+                seen_sig.add("dl:guard-failed")
+                report(ctx, "dl:guard-failed",
+                       {"kind": "model-differs-from-implementation",
+                        "correspondence": "faithfulness of the guarded theory (smt/DlGuard.v idl_gp): the decidable test of the "
+                                          "guarded-network theorems C08_pop_after_assume_restores_sat_idl_guarded / "
+                                          "C07_idl_network_soundness_guarded failed on a theory propagation of this history",
+                        "profile": profile, "theory": theory, "script": cmds, "guard_evaluations": int(gs[1]), "guard_failures": int(gs[2])},
+                       no_input=True)
         stats["diffed_commands"] += ln
         if any(s and not s.endswith("F=0") for _, s in mo):
             stats["model_faults"] += 1
@@ -489,6 +507,8 @@ C12_CMDS = ("rel", "newdist", "newdist2", "bounds", "dist", "boundsl", "distl", 
 
 
 def owns_c10(sig, cmd=None):
+    if sig == "dl:guard-failed":
+        return True
     if sig.startswith("corr:"):
         return sig.split(":")[2] not in C12_CMDS or sig.split(":")[2] == "newdist"
     body = sig.split(":", 1)[1] if ":" in sig else sig
@@ -496,6 +516,8 @@ def owns_c10(sig, cmd=None):
 
 
 def owns_c12(sig, cmd=None):
+    if sig == "dl:guard-failed":
+        return False
     if sig.startswith("corr:"):
         return sig.split(":")[2] in C12_CMDS
     body = sig.split(":", 1)[1] if ":" in sig else sig
@@ -589,7 +611,12 @@ def replay(prop, path):
         print("JUDGE:", sig, json.dumps(det, default=str))
         bad = bad or sig == d.get("signature")
     if oexe:
-        m, _, _ = run_script(oexe, [dl_common.variants_line(hexe)] + script)
+        m, _, _ = run_script(oexe, [dl_common.variants_line(hexe)] + script + ["guardstats"])
+        gs = m[-1][0].split() if m else []
+        if len(gs) == 3 and gs[0] == "guardstats":
+            print("GUARD (smt/DlGuard.v idl_gp): %s evaluations, %s failures" % (gs[1], gs[2]))
+            bad = bad or (d.get("signature") == "dl:guard-failed" and int(gs[2]) > 0)
+            m = m[:-1]
         mm = first_mismatch(script, outs, m[1:])
         if mm:
             print("MODEL DIFFERS at", mm[0], script[mm[0]])
